@@ -68,6 +68,10 @@ class Giveup(Exception):
     pass
 
 
+class _NoReturn(Exception):
+    """the path ends in a call that does not return (abort(), a failed assertion)"""
+
+
 class PosInterp:
     """Symbolic execution of small iterator functions.  Objects are dicts field -> value; values are Poly, ('div', a, b),
     ('obj', dict), ('deref', v), ('bool', formula) ..."""
@@ -131,7 +135,10 @@ class PosInterp:
                 continue
             if k in ("NullStmt",):
                 continue
-            self.ev(s, env)
+            try:
+                self.ev(s, env)
+            except _NoReturn:
+                return True          # this path never returns: it contributes no result
         self.paths.append((env, None, list(conds)))
         self.formulas.append(list(self.cond_stack))
         return True
@@ -211,6 +218,8 @@ class PosInterp:
             return Poly.const(int(n["value"]))
         if k == "CXXBoolLiteralExpr":
             return ("boolc", bool(n.get("value")))
+        if k == "StringLiteral":
+            return ("boolc", True)          # a literal's address used as a truth value (assert(!"message"))
         if k == "CXXThisExpr":
             return ("thisptr",)
         if k == "DeclRefExpr":
@@ -298,6 +307,8 @@ class PosInterp:
                 return self.add(b, self.neg(a))
             if name in ("move", "forward", "addressof") and len(ks) == 2:
                 return self.ev(ks[1], env)
+            if name in ("abort", "terminate", "__assert_fail", "_Exit", "quick_exit", "exit"):
+                raise _NoReturn()
             h = getattr(self, "methods", {}).get(name)
             if h is not None and name not in getattr(self, "no_inline", ()) and getattr(self, "depth", 0) < 3:
                 # a single-return helper member of the iterator (position(), to_index(p)): evaluated in place
@@ -418,6 +429,9 @@ def truth(v, ordering, pos=None):
             if a is None or b is None:
                 return None
             return (a and b) if v[0] == "&&" else (a or b)
+        if v[0] == "cmp" and v[1] in ("==", "!=") and all(isinstance(x, tuple) and x and x[0] in ("cmp", "not", "&&", "||", "boolc", "ite") for x in (v[2], v[3])):
+            a, b = truth(v[2], ordering, pos), truth(v[3], ordering, pos)
+            return None if a is None or b is None else ((a == b) == (v[1] == "=="))
         if v[0] == "cmp":
             op, a, b = v[1], v[2], v[3]
             # field-wise comparison T.f <op> R.f (either orientation): every position field moves in lockstep, so the model decides it
@@ -657,6 +671,8 @@ def rule_step(rep, d, classes):
                     elif isinstance(v, tuple) and v and v[0] == "ite":
                         for x_ in v[1:]:
                             walk(x_)
+                    elif isinstance(v, tuple) and v and v[0] == "cmp" and all(isinstance(x_, tuple) and x_ and x_[0] in ("cmp", "not", "&&", "||", "boolc", "ite") for x_ in (v[2], v[3])):
+                        walk(v[2]); walk(v[3])          # a comparison of two truth values
                     elif isinstance(v, tuple) and v and v[0] == "cmp":
                         op, l, r = v[1], v[2], v[3]
                         lf = list(l)[0][0] if isinstance(l, Poly) and len(l) == 1 else None
@@ -768,6 +784,74 @@ def rule_step(rep, d, classes):
                         rep.holds("C12.step", label, "dereference", where=where, scenario=scen, detail=txt)
 
 
+def rule_ranges(rep, d):
+    """begin/end/cbegin/cend/rbegin/rend/crbegin/crend of xdynamic_bitset_base: each (const and non-const) must designate, through whatever
+    delegation, iterator(0) / iterator(size()) and for the reverse forms reverse(end) / reverse(begin)"""
+    rep.rule("C12.range", "xdynamic_bitset_base: begin/cbegin designate position 0, end/cend position size(), rbegin/crbegin are reverse_iterator(end), "
+                          "rend/crend reverse_iterator(begin) - for the const and the non-const overloads, delegation followed")
+    from .. import norm
+    fns = {}
+    for f in ir.functions(d):
+        cls = ir.enclosing_class(d, f)
+        if cls is None or cls.get("name") != "xdynamic_bitset_base" or not ir.is_template_pattern(d, f):
+            continue
+        if f.get("name") in ("begin", "end", "cbegin", "cend", "rbegin", "rend", "crbegin", "crend") and not ir.params(f):
+            fns.setdefault(f.get("name"), []).append(f)
+
+    def decast(t):
+        # casts only: a one-argument construction (reverse_iterator(x)) is NOT transparent here
+        if not isinstance(t, tuple):
+            return t
+        while t[0] == "cast":
+            t = t[3]
+        return tuple(decast(x) if isinstance(x, tuple) else x for x in t)
+
+    def ret(f):
+        r = [x for x in ir.walk_expr(ir.body(f)) if x.get("kind") == "ReturnStmt" and ir.ekids(x)]
+        return decast(ir.sx(ir.ekids(r[0])[0])) if len(r) == 1 else None
+
+    def val(t, depth=0):
+        if t is None or depth > 5:
+            return ("?",)
+        if t[0] == "construct" or (t[0] == "call" and t[1][0] == "ref" and "iterator" in str(t[1][1])):
+            args = [x for x in t[2:]]
+            tname = str(t[1]) if t[0] == "construct" else str(t[1][1])
+            if len(args) == 1:
+                inner = val(args[0], depth + 1)
+                return ("rev", inner) if "reverse" in tname else inner
+            if len(args) == 2 and decast(args[0]) == ("un", "*", ("this",)):
+                p_ = norm.deep_uncast(args[1])
+                if norm.int_of(p_) == 0:
+                    return ("it", 0)
+                if p_[0] == "call" and len(p_) == 2 and p_[1] in (("ref", "size"), ("mem", ("this",), "size")):
+                    return ("it", "size")
+                return ("it", ir.show(p_))
+        if t[0] == "call" and len(t) == 2:
+            nm = t[1][1] if t[1][0] == "ref" else (t[1][2] if t[1][0] == "mem" and t[1][1] == ("this",) else None)
+            if nm in fns:
+                # the overload a const / non-const caller reaches designates the same position: follow the first with a body
+                return val(ret(fns[nm][-1]), depth + 1)
+        return ("?", ir.show(t)[:50])
+    want = {"begin": ("it", 0), "cbegin": ("it", 0), "end": ("it", "size"), "cend": ("it", "size"),
+            "rbegin": ("rev", ("it", "size")), "crbegin": ("rev", ("it", "size")), "rend": ("rev", ("it", 0)), "crend": ("rev", ("it", 0))}
+    n = 0
+    for nm, fl in sorted(fns.items()):
+        for f in fl:
+            n += 1
+            const = ") const" in ir.qtype(f)
+            got = val(ret(f))
+            label = "xdynamic_bitset_base::%s()%s" % (nm, " const" if const else "")
+            if got == want[nm]:
+                rep.holds("C12.range", label, "designated position", where=d.where(f), detail=str(got))
+            elif got[0] == "?" or (got[0] == "rev" and got[1][0] == "?"):
+                rep.inconclusive("C12.range", label, "designated position", where=d.where(f), detail="not a (reverse) iterator at a recognisable position: %s" % (got,))
+            else:
+                rep.violates("C12.range", label, "designated position", where=d.where(f),
+                             detail="designates %s, expected %s: the traversal starts or stops one element off" % (got, want[nm]))
+    if n < 8:
+        rep.broke("C12.range: only %d of the range accessors of xdynamic_bitset_base were found" % n)
+
+
 def run(tier):
     rep = Report("C12", tier, "other",
                  "Symbolic-position evaluation of the derived operators of both iterator bases (all orderings / all paths) and of the "
@@ -785,5 +869,6 @@ def run(tier):
         raise cj.AnalysisBroken("iterator classes not found: %s (found %s)" % ([n for n in need if n not in names], names))
     rule_prims(rep, d, classes)
     rule_step(rep, d, classes)
+    rule_ranges(rep, d)
     rep.unit("3 base templates; concrete iterators: %s" % ", ".join("%s(%s)" % (c["name"], k) for c, k in classes))
     return rep
